@@ -208,6 +208,16 @@ func RunLife(sc LifeScenario) (evs []Ev, inconclusive string) {
 				default:
 				}
 				<-gate1
+			case "slowpark": // busy for 3 s with its first batch, stuck for good from the second one on
+				select {
+				case entered <- struct{}{}:
+				default:
+				}
+				if n == 1 {
+					time.Sleep(3 * time.Second)
+				} else {
+					<-gate1
+				}
 			}
 			log(Ev{"e": "sink.end", "sink": name, "q": atomic.AddInt64(&seq, 1)})
 		}
@@ -224,6 +234,10 @@ func RunLife(sc LifeScenario) (evs []Ev, inconclusive string) {
 	} else if sc.Directed == "stopgrace" {
 		s.AddSyncSink(mkSink("s1", "park"))
 		s.AddSink(mkSink("a1", "fast"))
+	} else if sc.Directed == "stopgrace2" {
+		s.AddSink(mkSink("a1", "slowpark")) // asynchronous: the rows after the first match are processed while the sink is busy
+	} else if sc.Directed == "stopatonce" {
+		// no sink
 	} else {
 		s.AddSyncSink(mkSink("s1", beh))
 		s.AddSink(mkSink("a1", beh))
@@ -314,6 +328,48 @@ func RunLife(sc LifeScenario) (evs []Ev, inconclusive string) {
 			log(Ev{"e": "deadlock", "q": atomic.AddInt64(&seq, 1)})
 		}
 		time.Sleep(30 * time.Millisecond)
+	case "stopgrace2":
+		// MATCH_RECOGNIZE: the sink is still busy with an earlier match when Stop is called (the join takes 3 s of the grace
+		// period) and then blocks for good on the match that Stop flushes: Stop as a whole stays within ONE grace period
+		ts := int64(1000)
+		for _, r := range []map[string]any{{"g": "p", "v": 1}, {"g": "p", "v": 0}, {"g": "q", "v": 2}, {"g": "q", "v": 2}} {
+			ts += 100
+			r["id"], r["ts"] = int(ts), ts
+			guard("Emit", func() { s.Emit(r) })
+		}
+		select {
+		case <-entered:
+		case <-time.After(5 * time.Second):
+			return evs, "no delivery reached the sink"
+		}
+		time.Sleep(50 * time.Millisecond) // the rows of partition q have been processed (an open accepting run)
+		stopDone := make(chan struct{})
+		go func() { stop(1); close(stopDone) }()
+		select {
+		case <-stopDone:
+		case <-time.After(12 * time.Second):
+		}
+		close(gate1)
+		select {
+		case <-stopDone:
+		case <-time.After(10 * time.Second):
+			log(Ev{"e": "deadlock", "q": atomic.AddInt64(&seq, 1)})
+		}
+		time.Sleep(30 * time.Millisecond)
+	case "stopatonce":
+		// Stop right after Execute, before any goroutine the engine started has run (one P): returns at once, leaves nothing behind
+		old := runtime.GOMAXPROCS(1)
+		s2 := newInstance(streamsql.WithCustomPerformance(pc), streamsql.WithDiscardLog())
+		if err := s2.Execute(sql); err != nil {
+			runtime.GOMAXPROCS(old)
+			return evs, "execute: " + err.Error()
+		}
+		t0 := time.Now()
+		guard("Stop", s2.Stop)
+		ms := time.Since(t0).Milliseconds()
+		runtime.GOMAXPROCS(old)
+		log(Ev{"e": "quickstop", "q": atomic.AddInt64(&seq, 1), "ms": ms})
+		stop(1)
 	case "idlestop":
 		// historic event timestamps (1970) and an idle timeout: once the source is idle the watermark jumps to the wall clock,
 		// decades ahead of the window cursor; the engine must stay responsive (Emit, Stop) all the same
